@@ -382,6 +382,8 @@ extern int mpt_graph_get(const MPT_STRUCT(graph) *gr, MPT_STRUCT(property) *pr)
 	}
 	if (!strcmp(pr->name, "clip") && gr->clip < 8) {
 		MPT_property_set_string(pr, axes_clip[gr->clip]);
+		/* string pointer can not be compared to (byte size) default */
+		return gr->clip != def_graph.clip;
 	}
 	return mpt_value_compare(&pr->val, ((uint8_t *) &def_graph) + elem[pos].off);
 }
